@@ -60,7 +60,8 @@ def build_block(AHP, b, via_create=False):
         for k in b[4]:
             el.appendBlock(build_block(AHP, k, via_create))
         return el
-    el = AHP.AdvancedTag(b[1], [tuple(a) for a in b[2]], bool(b[3]))
+    # with `create`, the public constructor gets the name in upper case too (same element as with the lower-case name)
+    el = AHP.AdvancedTag(b[1].upper() if via_create else b[1], [tuple(a) for a in b[2]], bool(b[3]))
     for k in b[4]:
         el.appendBlock(build_block(AHP, k, via_create))
     return el
